@@ -537,7 +537,9 @@ def _into_is_square_list(b):
     ok = True
     n = 0
     for bi, t in b.calls():
-        if (t.get("callee") or "").endswith("Into<U>>::into"):
+        if (t.get("callee") or "") == c06_bitvec():
+            n += 1      # `.into()` already read as the crate's From<Bitboard> for Vec<Square>
+        elif (t.get("callee") or "").endswith("Into<U>>::into"):
             n += 1
             ok = ok and t["dest"]["ty"] == "std::vec::Vec<board::square::Square>" and t["args"] and (t["args"][0].get("move") or t["args"][0].get("copy") or {}).get("ty") == "board::bitboard::Bitboard"
     return ok and n >= 1
@@ -872,7 +874,40 @@ def rule_capture_src(ctx):
     kb = ctx.body("board::piece::Kind::get_moveset")
     flt = ix.closures_of("board::piece::Kind::get_moveset")
     okf = False
+    from . import cases
     for cb in flt:
+        if cb.arg_count != 2:
+            continue
+        # the predicate folded over start / dest coordinates on the board, on its edge and beyond it
+        good = True
+        pts = (0, 7, 8, 255)
+        n_cases = 0
+        for sr in pts:
+            for sf in pts:
+                for dr in pts:
+                    for df in (0, 7, 8):
+                        mvv = ("agg", "board::ply::Ply", "Ply", (("agg", "board::square::Square", "Square", (("const", sr, "u8"), ("const", sf, "u8")), ("rank", "file")),
+                                                                  ("agg", "board::square::Square", "Square", (("const", dr, "u8"), ("const", df, "u8")), ("rank", "file"))), ("start", "dest"))
+                        arg = mvv
+                        for _ in range(cb.locals[2]["ty"].count("&")):
+                            arg = ("ref", arg)
+                        run = cases.run(ix, cb, {cb.local_name(2): arg})
+                        rets = {p.ret for p in run.paths if p.end == "return"}
+                        want = max(sr, sf, dr, df) < 8 and (sr, sf) != (dr, df)
+                        n_cases += 1
+                        if run.overflow or rets != {("const", int(want), "bool")}:
+                            good = False
+                            break
+                    if not good:
+                        break
+                if not good:
+                    break
+            if not good:
+                break
+        if good and n_cases == 192:
+            okf = True
+            ctx.functions.add(cb.key)
+    for cb in flt if not okf else ():
         txt = mir.dump_body(cb)
         okf = okf or (txt.count("8_u8") >= 4 and "start" in txt and "dest" in txt)
     ctx.check(okf, "Kind::get_moveset:on-board-filter", "generated moves are filtered to ranks/files < 8 and start != dest", kb.where(0), bad_what="the on-board filter of Kind::get_moveset changed")
